@@ -3,7 +3,12 @@
 package gomatrixserverlib
 
 import (
+	"crypto/sha256"
+	"encoding/base64"
+	"encoding/json"
 	"time"
+
+	"github.com/matrix-org/gomatrixserverlib/spec"
 
 	"golang.org/x/crypto/ed25519"
 )
@@ -67,6 +72,43 @@ func vp_C03_spelling() {
 		vpAssert("headered-parse", err == nil)
 		if err == nil {
 			vpSameEvent("headered", ev, he)
+		}
+	}
+	if vpSpecTraits(ver).idFormat != EventIDFormatV1 {
+		// the ID is the base64 of the SHA-256 of the *canonical* spelling of the redacted event without signatures,
+		// unsigned and age_ts (the harness canonicalises itself: under spelling=1 a hash over the marshalled spelling
+		// is a different digest)
+		id := ev.EventID()
+		if red, rerr := verImpl.RedactEventJSON(ev.JSON()); rerr == nil {
+			var m map[string]spec.RawJSON
+			if json.Unmarshal(red, &m) == nil {
+				delete(m, "signatures")
+				delete(m, "unsigned")
+				delete(m, "age_ts")
+				if b, merr := json.Marshal(m); merr == nil {
+					if c, cerr := CanonicalJSON(b); cerr == nil {
+						h := sha256.Sum256(c)
+						wantID := "$" + base64.RawStdEncoding.EncodeToString(h[:])
+						if vpSpecTraits(ver).idFormat == EventIDFormatV3 {
+							wantID = "$" + base64.RawURLEncoding.EncodeToString(h[:])
+						}
+						vpAssert("id-is-reference-hash", id == wantID)
+					}
+				}
+			}
+		}
+		e2, err := ev.SetUnsigned(map[string]interface{}{"note": "<&>"})
+		vpAssert("set-unsigned", err == nil)
+		if err == nil {
+			vpAssert("id-after-unsigned", e2.EventID() == id)
+		}
+		_, priv2B := vpKey("other")
+		e3 := ev.Sign("y", "ed25519:2", ed25519.PrivateKey(priv2B))
+		vpAssert("id-after-signature", e3.EventID() == id)
+		r, err := verImpl.NewEventFromTrustedJSON(ev.JSON(), false)
+		if err == nil {
+			r.Redact()
+			vpAssert("id-after-redaction", r.EventID() == id)
 		}
 	}
 }
